@@ -34,6 +34,8 @@ def check(ctx):
   ctx.rule('C08.R4', 'shared with C08: a failed transport open shuts down with the fault signal (the resurrector fails fast and retries on it)')
   c08.failed_open_rules(ctx)
   balancer_close(ctx)
+  from . import c07
+  c07.dead_release_keeps_subscription(ctx, 'C09.R5')
   from . import c04
   ctx.rule('C04.R4', 'shared with C04: a member taken out of the balancer has its channel (the resurrector of a failed endpoint included) closed, at once when it is idle or marked down '
                      '(a down member is penalised to load >= 0; exactly 0 when it was idle): an orphaned resurrector keeps reconnecting after the client is closed')
